@@ -13,7 +13,9 @@ head_end = s.index('| seeded change |', a) if '| seeded change |' in s[a:] else 
 if head_end is None:
     raise SystemExit('table header not found')
 # table = header line + separator + rows until the first blank line
-b = s.index('\n\n', head_end)
+b = s.find('\n\n', head_end)
+if b < 0:
+    b = len(s)
 hdr = s[head_end:].split('\n')[:2]
 s = s[:head_end] + '\n'.join(hdr + rows) + s[b:]
 open(p, 'w').write(s)
